@@ -281,6 +281,24 @@ Theorem C09_dump_each_object_once :
 Proof. exact dump_once. Qed.
 Print Assumptions C09_dump_each_object_once.
 
+(* independence of instances: a load creates its objects at fresh addresses only, so two loads of
+   one dump (from_json called twice on the same text) share no object *)
+Theorem C09_load_creates_fresh_objects :
+  forall (Sc : Type) (c : ctx Sc) (base : addr) (fuel : nat) (root r : addr) (st : lstate Sc),
+    from_registry fuel c root base = Some (r, st) ->
+    forall a o, alookup a (l_heap st) = Some o -> (base <= a < l_next st)%nat.
+Proof. exact load_range. Qed.
+Print Assumptions C09_load_creates_fresh_objects.
+Theorem C09_two_loads_disjoint :
+  forall (Sc : Type) (c : ctx Sc) (fuel : nat) (root b1 b2 r1 : addr) (st1 : lstate Sc) (r2 : addr)
+         (st2 : lstate Sc),
+    from_registry fuel c root b1 = Some (r1, st1) ->
+    from_registry fuel c root b2 = Some (r2, st2) ->
+    (l_next st1 <= b2)%nat ->
+    forall a o1 o2, alookup a (l_heap st1) = Some o1 -> alookup a (l_heap st2) = Some o2 -> False.
+Proof. exact two_loads_disjoint. Qed.
+Print Assumptions C09_two_loads_disjoint.
+
 (* consequences of the isomorphism, in terms of access paths (lists of reference positions):
    the same path reaches the corresponding object ... *)
 Theorem C09_paths_preserved :
